@@ -165,6 +165,8 @@ struct World {
 	/// transactions first admitted below the minimum fee while the txpool was over capacity
 	lowfee_known: BTreeSet<String>,
 	over_capacity_before: bool,
+	/// entries whose standalone validation was already evaluated (by tx hash)
+	validated: std::collections::HashSet<Hash>,
 	/// head height went down in a reorg since the pool was last empty (attribution)
 	height_decreased: bool,
 	last_probe: String,
@@ -228,6 +230,7 @@ impl World {
 			evicted_ins: BTreeSet::new(),
 			lowfee_known: BTreeSet::new(),
 			over_capacity_before: false,
+			validated: std::collections::HashSet::new(),
 			height_decreased: false,
 			last_probe: String::new(),
 			stats: BTreeMap::new(),
@@ -549,41 +552,72 @@ impl World {
 		s
 	}
 
-	/// admission oracle (property): no entry of the txpool / stempool / reorg cache pays less than
-	/// the minimum fee for its weight or exceeds the weight limit
+	/// admission oracle (property), evaluated after EVERY op on every entry of the txpool, the
+	/// stempool and the reorg cache (which is replayed into the txpool on a reorg): the entry's own
+	/// fee is at least the minimum for its own weight, it is within the weight limit, and it passes
+	/// standalone validation
 	fn admission_oracle(&mut self, out: &mut Out, ctx: &str) {
-		let cache: Vec<PoolEntry> = self.pool.reorg_cache.read().iter().cloned().collect();
-		let public: Vec<PoolEntry> =
-			self.pool.txpool.entries.iter().chain(self.pool.stempool.entries.iter()).cloned().collect();
-		for (place, e) in public.iter().map(|e| ("pool", e)).chain(cache.iter().map(|e| ("reorg cache", e))) {
-			let bad_fee = e.tx.shifted_fee() < e.tx.weight() * FEE_BASE;
+		let mut all: Vec<(&'static str, PoolEntry)> = vec![];
+		for e in self.pool.txpool.entries.iter() {
+			all.push(("txpool", e.clone()));
+		}
+		for e in self.pool.stempool.entries.iter() {
+			all.push(("stempool", e.clone()));
+		}
+		for e in self.pool.reorg_cache.read().iter() {
+			all.push(("reorg-cache", e.clone()));
+		}
+		for (place, e) in all {
+			let min = e.tx.weight() * FEE_BASE;
+			let bad_fee = e.tx.shifted_fee() < min;
 			let heavy = e.tx.weight() > global::max_tx_weight();
+			let h = e.tx.hash();
+			if !self.validated.contains(&h) {
+				self.validated.insert(h);
+				self.stat("admission-oracle:entries-validated");
+				if let Err(err) = e.tx.validate(Weighting::AsTransaction) {
+					let sig = self.tx_sig(&e.tx);
+					out.raw(&format!(
+						"#ORACLE-FAIL C14 pool holds a transaction that fails standalone validation ({:?}): hist={} after [{}]: {} entry {} src={}",
+						err,
+						self.name,
+						ctx,
+						place,
+						sig,
+						src_letter(e.src)
+					));
+				}
+			}
 			if !(bad_fee || heavy) {
 				continue;
 			}
 			let sig = self.tx_sig(&e.tx);
 			let desc = format!(
-				"hist={} after [{}]: {} holds {} with fee {} (shifted {}) weight {} (minimum fee {}, max weight {})",
+				"pool holds a transaction paying fee {} for weight {} (minimum {}), src={}: hist={} after [{}]: {} entry {} (shifted fee {}, weight limit {})",
+				e.tx.fee(),
+				e.tx.weight(),
+				min,
+				src_letter(e.src),
 				self.name,
 				ctx,
 				place,
 				sig,
-				e.tx.fee(),
 				e.tx.shifted_fee(),
-				e.tx.weight(),
-				e.tx.weight() * FEE_BASE,
 				global::max_tx_weight()
 			);
-			if bad_fee && !heavy && self.lowfee_known.contains(&sig) {
-				if place == "pool" {
+			if heavy {
+				out.raw(&format!("#ORACLE-FAIL C14 pool holds a transaction over the weight limit: {}", desc));
+			} else if self.lowfee_known.contains(&sig) {
+				if place != "reorg-cache" {
 					out.raw(&format!("#KNOWN-PROBE C14 low-fee-admitted-when-over-capacity: (still held / replayed from the reorg cache) {}", desc));
 				}
-			} else if bad_fee && !heavy && self.over_capacity_before {
+			} else if self.over_capacity_before {
+				// the recorded finding: is_acceptable reports OverCapacity before looking at the fee
 				self.lowfee_known.insert(sig);
 				out.raw(&format!("#KNOWN-PROBE C14 low-fee-admitted-when-over-capacity: {}", desc));
 				self.stat("finding:low-fee-admitted-when-over-capacity");
 			} else {
-				out.raw(&format!("#ORACLE-FAIL C14 inadmissible-tx-admitted {}", desc));
+				out.raw(&format!("#ORACLE-FAIL C14 {}", desc));
 			}
 		}
 	}
@@ -821,6 +855,54 @@ impl World {
 		self.obs(out, "pool truncate_cache");
 	}
 
+	/// submit `aggregate(pooled ++ news)`; statistics on the remainder the pool is left with after
+	/// deaggregation (the new part): does it pay its own minimum, does the aggregate as a whole
+	fn submit_aggregate(
+		&mut self,
+		out: &mut Out,
+		pooled: &[Transaction],
+		news: &[Transaction],
+		label: &str,
+		src: TxSource,
+		stem: bool,
+		stem_ok: bool,
+	) -> bool {
+		let mut parts = pooled.to_vec();
+		parts.extend(news.iter().cloned());
+		let agg = match transaction::aggregate(&parts) {
+			Ok(a) => a,
+			Err(_) => return false,
+		};
+		let rem_fee: u64 = news.iter().map(|t| t.fee()).sum();
+		let rem_w: u64 = news.iter().map(|t| t.weight()).sum();
+		let rem_low = !news.is_empty() && rem_fee < rem_w * FEE_BASE;
+		let agg_meets = agg.shifted_fee() >= agg.weight() * FEE_BASE;
+		let full = format!(
+			"{}{}{}",
+			label,
+			if rem_low { ":remainder-below-minimum" } else { "" },
+			if rem_low && agg_meets { ":aggregate-meets-minimum" } else if rem_low { ":aggregate-below-minimum" } else { "" }
+		);
+		let t = self.add_tx(out, agg, vec![], &full);
+		let res = self.submit(out, t, src, stem, stem_ok);
+		self.stat("aggpool:submissions");
+		self.stat(&format!("aggpool:pooled-parts={}:new-parts={}", pooled.len(), news.len()));
+		if stem {
+			self.stat("aggpool:stem");
+		}
+		if rem_low {
+			self.stat("aggpool:remainder-below-minimum");
+			self.stat(&format!("aggpool:remainder-below-minimum:{}", res));
+			if agg_meets {
+				self.stat("aggpool:remainder-below-minimum-but-aggregate-meets-minimum");
+				self.stat(&format!("aggpool:remainder-below-minimum-but-aggregate-meets-minimum:{}", res));
+			}
+		} else {
+			self.stat(&format!("aggpool:remainder-pays-minimum:{}", res));
+		}
+		true
+	}
+
 	// -------------------------------------------------------------------------------------
 	// generators
 
@@ -1024,43 +1106,71 @@ fn random_submission(w: &mut World, out: &mut Out, rng: &mut Rng) -> bool {
 		w.submit(out, t, src, stem, stem_ok);
 		return true;
 	} else if kind < 67 {
-		// aggregated form: pooled tx(s) + possibly a new one
+		// aggregated form: pooled tx(s) + new one(s); the new part pays its own minimum or not
 		let pooled: Vec<Transaction> = w.pool.txpool.entries.iter().map(|e| e.tx.clone()).collect();
 		if pooled.is_empty() {
 			return false;
 		}
-		let mut parts = vec![rng.pick(&pooled).clone()];
+		let mut old = vec![rng.pick(&pooled).clone()];
 		let mut label = "aggregate-pooled+new";
 		if pooled.len() >= 2 && rng.chance(1, 3) {
 			let other = rng.pick(&pooled).clone();
-			if other != parts[0] {
-				parts.push(other);
+			if other != old[0] {
+				old.push(other);
+				label = "aggregate-two-pooled+new";
 			}
 		}
-		if rng.chance(3, 4) && !free.is_empty() {
-			let o = *rng.pick(&free);
-			let fee = World::good_fee(rng, World::weight_of(1, 1));
-			if let Some(t) = w.spend(&[o], 1, fee, None) {
-				parts.push(t);
+		let old_fee: u64 = old.iter().map(|t| t.fee()).sum();
+		let old_w: u64 = old.iter().map(|t| t.weight()).sum();
+		let w11 = World::weight_of(1, 1);
+		// fee of the new part: good, or below its own minimum (far below / just below / exactly what
+		// the aggregate as a whole still needs, when that is below the new part's own minimum)
+		let pick_fee = |rng: &mut Rng| -> u64 {
+			let min = w11 * FEE_BASE;
+			match rng.below(6) {
+				0 | 1 => World::good_fee(rng, w11),
+				2 => 1,
+				3 => min - 1,
+				4 => min / 2,
+				_ => {
+					let need = ((old_w + w11) * FEE_BASE).saturating_sub(old_fee);
+					need.max(1).min(min - 1)
+				}
 			}
-		} else if rng.chance(1, 2) {
+		};
+		let mut news = vec![];
+		let shape = rng.below(8);
+		if shape < 5 && !free.is_empty() {
+			let o = *rng.pick(&free);
+			let fee = pick_fee(rng);
+			if let Some(t) = w.spend(&[o], 1, fee, None) {
+				news.push(t);
+			}
+			if rng.chance(1, 4) && free.len() >= 2 {
+				let o2 = free.iter().cloned().find(|x| *x != o).unwrap();
+				let fee2 = pick_fee(rng);
+				if let Some(t) = w.spend(&[o2], 1, fee2, None) {
+					news.push(t);
+				}
+			}
+		} else if shape < 7 {
 			// a new child of the pooled tx, aggregated with its parent (cut-through)
-			let outs = w.tx_outs(&parts[0]);
+			let outs = w.tx_outs(&old[0]);
 			let spent = w.pool_spent();
 			if let Some(o) = outs.iter().find(|o| !spent.contains(o)) {
-				let fee = World::good_fee(rng, World::weight_of(1, 1));
+				let fee = pick_fee(rng);
 				if let Some(t) = w.spend(&[*o], 1, fee, None) {
-					parts.push(t);
+					news.push(t);
 					label = "aggregate-pooled+its-new-child";
 				}
 			}
 		} else {
 			label = "aggregate-of-pooled-only";
 		}
-		if parts.len() < 2 {
+		if old.len() + news.len() < 2 {
 			return false;
 		}
-		(transaction::aggregate(&parts).ok(), vec![], label)
+		return w.submit_aggregate(out, &old, &news, label, src, stem, stem_ok);
 	} else if kind < 74 {
 		// fee below the minimum for the weight
 		if free.is_empty() && pool_outs.is_empty() {
@@ -1426,6 +1536,80 @@ fn scenario_low_fee_at_capacity(work: &str, out: &mut Out, total: &mut BTreeMap<
 	}
 }
 
+/// A transaction paying less than its own minimum fee must not get in as the remainder of an
+/// aggregate with an already-pooled, overpaying transaction (deaggregation path of
+/// `TransactionPool::add_to_pool`): P overpaying by various margins, N below / at its minimum, the
+/// aggregate as a whole below / exactly at / above the aggregate's minimum; one and two new
+/// parts; two pooled parts; dependent remainder; stem and fluff. Never over capacity.
+fn scenario_aggregate_low_fee(work: &str, out: &mut Out, total: &mut BTreeMap<String, u64>) {
+	let mut rng = Rng::new(82);
+	let mut w = World::new(work, "aggregate-low-fee", Cfg { max_pool: 50, max_stem: 50, mine_w: 250 });
+	print_cfg(&w, out);
+	warm_up(&mut w, out, &mut rng, 9);
+	w.print_head(out);
+	let free = w.free_utxo();
+	if free.len() < 8 {
+		out.raw("#STAT scenario:aggregate-low-fee=not-enough-outputs");
+		return;
+	}
+	let w11 = World::weight_of(1, 1);
+	let min = w11 * FEE_BASE; // 50; the aggregate of two such transactions weighs 50: minimum 100
+	// pooled, overpaying by different margins
+	let p_fees = [min + 1, 2 * min - 1, 3 * min, 20 * min];
+	let mut ps = vec![];
+	for (k, f) in p_fees.iter().enumerate() {
+		let p = w.spend(&[free[k]], 1, *f, None).unwrap();
+		let t = w.add_tx(out, p.clone(), vec![], "agglow-pooled-P");
+		w.submit(out, t, TxSource::Broadcast, false, true);
+		ps.push(p);
+	}
+	// new transactions on one and the same unspent output (at most one of them can ever get in)
+	let n_fees = [1u64, min / 2, min - 1, min, min + 1];
+	let mut ns = vec![];
+	for f in n_fees.iter() {
+		ns.push(w.spend(&[free[4]], 1, *f, None).unwrap());
+	}
+	// alone, the low ones are refused
+	for n in ns.iter().take(3) {
+		let t = w.add_tx(out, n.clone(), vec![], "agglow-N-alone");
+		w.submit(out, t, TxSource::Broadcast, false, true);
+	}
+	// aggregate([P, N]) for every margin x every N fee, fluff; low N first
+	for n in ns.iter() {
+		for p in ps.iter() {
+			w.submit_aggregate(out, &[p.clone()], &[n.clone()], "agglow:P+N", TxSource::Broadcast, false, true);
+		}
+	}
+	// stem: no deaggregation on that path
+	for n in ns.iter().take(3) {
+		w.submit_aggregate(out, &[ps[3].clone()], &[n.clone()], "agglow:P+N", TxSource::PushApi, true, true);
+		w.submit_aggregate(out, &[ps[3].clone()], &[n.clone()], "agglow:P+N", TxSource::PushApi, true, false);
+	}
+	// P with two new transactions: one low, one fine; both low
+	let n2_low = w.spend(&[free[5]], 1, 1, None).unwrap();
+	let n2_ok = w.spend(&[free[6]], 1, 3 * min, None).unwrap();
+	let n2_low_b = w.spend(&[free[6]], 1, min - 1, None).unwrap();
+	w.submit_aggregate(out, &[ps[3].clone()], &[n2_low.clone(), n2_low_b.clone()], "agglow:P+N1+N2", TxSource::Fluff, false, true);
+	w.submit_aggregate(out, &[ps[2].clone()], &[n2_low.clone(), n2_low_b], "agglow:P+N1+N2", TxSource::Fluff, false, true);
+	w.submit_aggregate(out, &[ps[3].clone()], &[n2_low.clone(), n2_ok.clone()], "agglow:P+N1+N2", TxSource::Fluff, false, true);
+	// two pooled transactions plus a low-fee new one
+	let n3 = w.spend(&[free[7]], 1, 2, None).unwrap();
+	w.submit_aggregate(out, &[ps[0].clone(), ps[3].clone()], &[n3.clone()], "agglow:P1+P2+N", TxSource::Broadcast, false, true);
+	w.submit_aggregate(out, &[ps[1].clone(), ps[2].clone()], &[n3.clone()], "agglow:P1+P2+N", TxSource::EmbargoExpired, false, true);
+	w.submit_aggregate(out, &[ps[1].clone(), ps[2].clone()], &[n3], "agglow:P1+P2+N", TxSource::Broadcast, true, true);
+	// dependent remainder: N spends the output of P (cut-through inside the aggregate)
+	for (k, f) in [1u64, min - 1, min, 4 * min].iter().enumerate() {
+		let p = &ps[k % ps.len()];
+		let po = w.tx_outs(p)[0];
+		if let Some(child) = w.spend(&[po], 1, *f, None) {
+			w.submit_aggregate(out, &[p.clone()], &[child], "agglow:P+child-of-P", TxSource::Broadcast, false, true);
+		}
+	}
+	for (k, v) in &w.stats {
+		*total.entry(k.clone()).or_insert(0) += v;
+	}
+}
+
 /// a transaction that is exactly the aggregate of pooled transactions
 fn scenario_full_aggregate(work: &str, out: &mut Out, total: &mut BTreeMap<String, u64>) {
 	let mut rng = Rng::new(79);
@@ -1591,6 +1775,7 @@ fn main() {
 		scenario_evict_chain(&work, &mut out, &mut total);
 		scenario_low_fee_at_capacity(&work, &mut out, &mut total);
 		scenario_full_aggregate(&work, &mut out, &mut total);
+		scenario_aggregate_low_fee(&work, &mut out, &mut total);
 		scenario_reorg_lower(&work, &mut out, &mut total);
 		let _ = std::fs::remove_dir_all(&work);
 		let _ = std::fs::create_dir_all(&work);
